@@ -107,7 +107,7 @@ static std::string run_one(const Bytes &file, const Bytes &good, size_t flip_off
 }
 
 static void prop(Ctx &c) {
-    gen::ZFileOpts o; o.force_comp = ZCK_COMP_ZSTD; o.max_chunks = 6; o.max_chunk = c.tier ? 900 : 300; o.allow_dups = false; o.allow_empty = false; o.allow_uncomp = true; o.allow_empty_stored = false;    // a chunk without data has nothing to release
+    gen::ZFileOpts o; o.force_comp = ZCK_COMP_ZSTD; o.max_chunks = 6; o.max_chunk = c.tier ? 900 : 300; o.allow_dups = c.gver >= 4 && c.rarely(3); o.allow_empty = false; o.allow_uncomp = true; o.allow_empty_stored = false;    // a chunk without data has nothing to release
     // an eighth of the cases: one chunk larger than the library's 32 KiB buffers or than zstd's 128 KiB block (flips sampled, not enumerated)
     bool large = c.gver >= 2 && c.rarely(8); if (large) { o.big_rate = 1; o.big_huge = true; o.max_chunks = 3; }
     gen::ZFile z = gen::zfile(c, o);
@@ -116,6 +116,8 @@ static void prop(Ctx &c) {
     // which chunk is bad
     size_t bad; uint64_t k = c.draw(3);
     bad = k == 0 ? 1 : k == 1 ? n - 1 : k == 2 && has_dict ? 0 : 1 + c.pick(n - 1);
+    // a chunk that occurs more than once in the index: the later copy is the bad one
+    if (c.gver >= 4 && !large) { for (size_t i = n - 1; i >= 2; i--) { bool dup = false; for (size_t j = 1; j < i; j++) if (z.h.entries[j].digest == z.h.entries[i].digest) dup = true; if (dup && c.chance(2, 3)) { bad = i; c.label("bad=later-duplicate"); break; } } }
     if (large) { for (size_t i = 1; i < n; i++) if (z.clen(i) > z.clen(bad) || bad == 0) bad = i; c.label(z.clen(bad) > 131072 ? "bad-chunk>128KiB" : z.clen(bad) > 32768 ? "bad-chunk>32KiB" : "bad-chunk-small"); }
     size_t plain_start = 0; for (size_t i = 1; i < bad; i++) plain_start += z.plain[i].size();
     if (bad == 0) plain_start = 0;
